@@ -83,7 +83,7 @@ std::vector<SimOp> genSimHistory(sim::Rng& g, const std::string& property) {
     std::vector<bool> measured;
     int len = g.range(3, 40);
     static const double angles[] = {0, M_PI / 2, -M_PI / 2, M_PI, -M_PI, 2 * M_PI, -2 * M_PI, 1e-9, 1e3, 0.3, 1.1, 2.7, -4.4, 5.9, M_PI / 3, 4 * M_PI, 1e-4, 3e-4, 5e-5, -2e-4, 1e-3, 6e-4};
-    int maxQ = g.chance(0.04) ? 12 : 7;   // a few large registers (chunked loops, strides above bit 10)
+    int maxQ = g.chance(0.08) ? 12 : 7;   // a few large registers (chunked loops, strides above bit 10)
     double pReset = property == "C04" ? 0.25 : 0.1;
     double pMeasure = property == "C02" ? 0.25 : 0.12;
     for (int i = 0; i < len; ++i) {
@@ -629,6 +629,8 @@ void progObserver(runtime::RuntimeEvaluator* ev, void* stmt, uint64_t, bool) {
         if (pr->interp.expectError) {
             const qh::Op& o = pr->plan->ops[(size_t)k - 1];
             pr->findings.push_back({"measured_qubit_operated_on", "C06", "op " + std::to_string(k - 1) + " (" + qh::kindName(o.kind) + " via " + qh::handleExpr(o.h) + ", path " + std::to_string(o.path) + ") touched a measured qubit (or used one qubit twice in cx) and the program went on"});
+            if (o.kind == qh::CX && pr->interp.resolve(o.h) == pr->interp.resolve(o.h2))
+                pr->findings.push_back({"two_qubit_gate_executed_on_one_qubit", "C05", "op " + std::to_string(k - 1) + ": cx with control and target bound to the same qubit was executed (the emitted text cannot be a valid two-qubit gate application)"});
             pr->desync = true;
             return;
         }
@@ -1108,7 +1110,15 @@ void runOne(const sim::Options& opt, uint64_t run, sim::RunReport& rep) {
     mp.ops = min;
     std::string d1, d2;
     std::string c1, c2;
-    if (cliCls) { c1 = c2 = cls; d1 = detail; }
+    if (cliCls) {
+        // re-evaluate the file clause twice on the minimised plan
+        std::string e1, e2;
+        bool f1 = !cliQasmFileCheck(mp, (run % 16 == 1) ? 0 : 2, e1), f2 = !cliQasmFileCheck(mp, (run % 16 == 1) ? 0 : 2, e2);
+        c1 = f1 ? cls : "";
+        c2 = f2 ? cls : "";
+        d1 = e1;
+        d2 = e2;
+    }
     else { c1 = progClass(mp, property, opt.seed, run, d1); c2 = progClass(mp, property, opt.seed, run, d2); }
     sim::Violation v;
     v.cls = cls;
